@@ -486,10 +486,32 @@ impl<'r> World<'r> {
                 }
             }
             Op::Block { dh, dt } => {
-                on_app!(&self.chain, app => app.update_block(|b| {
+                // through the multitest harness' own wrappers (they are part of what the proxies sit on);
+                // alternate between the two ways of moving the clock
+                let f = |b: &mut sylvia::cw_std::BlockInfo| {
                     b.height += dh;
                     b.time = b.time.plus_seconds(*dt);
-                }));
+                };
+                match &self.chain {
+                    Chain::E(a) => {
+                        if dh % 2 == 0 {
+                            a.update_block(f)
+                        } else {
+                            let mut b = a.block_info();
+                            f(&mut b);
+                            a.set_block(b)
+                        }
+                    }
+                    Chain::C(a) => {
+                        if dh % 2 == 0 {
+                            a.update_block(f)
+                        } else {
+                            let mut b = a.block_info();
+                            f(&mut b);
+                            a.set_block(b)
+                        }
+                    }
+                }
                 Outcome::None
             }
             Op::Poke { target, key, val } => {
